@@ -81,7 +81,7 @@ type faultOutcome struct {
 
 // modelIndex: position (0-based, among visible ops) of the k-th op of class sys in the
 // model's fault-free trace for transform old->new; -1 if there is none.
-func modelIndex(m *common.Model, call, old, nw, sys string, k int, nreads int) int {
+func modelIndex(m *lfModel, call, old, nw, sys string, k int, nreads int) int {
 	ans := m.Ask1(fmt.Sprintf("ops %s %s %s", call, nw, old))
 	f := strings.Fields(ans)
 	if len(f) < 3 {
@@ -112,7 +112,7 @@ func modelIndex(m *common.Model, call, old, nw, sys string, k int, nreads int) i
 	return -1
 }
 
-func runFaultCase(self, work string, m *common.Model, c faultCase) (faultOutcome, error) {
+func runFaultCase(self, work string, m *lfModel, c faultCase) (faultOutcome, error) {
 	var fo faultOutcome
 	path := filepath.Join(work, "fault-file")
 	// fault-free run first: how many calls of each kind there are
@@ -196,7 +196,7 @@ func runFaultCase(self, work string, m *common.Model, c faultCase) (faultOutcome
 // runFsizeCase: a genuine partial write.  The helper runs with RLIMIT_FSIZE = limit and
 // SIGXFSZ ignored, so the write that crosses the limit stores a prefix and then fails with
 // EFBIG.  Transform (growing): limit = len(old)+k hits the tail write; Write: limit = k.
-func runFsizeCase(self, work string, m *common.Model, call, old, nw string, k int) (faultOutcome, error) {
+func runFsizeCase(self, work string, m *lfModel, call, old, nw string, k int) (faultOutcome, error) {
 	var fo faultOutcome
 	path := filepath.Join(work, "fsize-file")
 	setFile(path, old)
